@@ -143,6 +143,11 @@ func cmdCheck(argv []string) {
 			good = append(good, p)
 		}
 	}
+	for _, p := range good {
+		if p.Types != nil && p.TypesInfo != nil {
+			typeInfos[p.Types] = p.TypesInfo
+		}
+	}
 	prog, spkgs := ssautil.AllPackages(good, ssa.InstantiateGenerics)
 	prog.Build()
 	ssaBy := map[string]*ssa.Package{}
